@@ -478,3 +478,9 @@ ROUND3 = {
 }
 for _k, _v in ROUND3.items():
     CLAIMS[_k]["text"] += _v
+ROUND4 = {
+    'C03': " The covered verdicts are read twice: from the zero distances of the trace and through every BranchGoal of the real BranchGoalPool (is_covered); both must equal the interpreter's outcomes. The vectors include floats closer than one machine epsilon and denormals.",
+    'C29': " The operation list of the bounded part includes compound operations (directory + file + rename of a scratch file onto its final name; nested makedirs; several temporaries renamed in turn), so that recorded paths have disappeared again before the isolation exits.",
+}
+for _k, _v in ROUND4.items():
+    CLAIMS[_k]["text"] += _v
